@@ -33,6 +33,9 @@ func isVarG(d ast.Decl) bool {
 
 func (d *Driver) loadKnown() error {
 	d.knownHit = map[string]bool{}
+	if hb, err := os.ReadFile(filepath.Join(d.Verif, "solver_hints.json")); err == nil {
+		json.Unmarshal(hb, &solverHints)
+	}
 	b, err := os.ReadFile(filepath.Join(d.Verif, "known_findings.json"))
 	if err != nil {
 		if os.IsNotExist(err) {
@@ -484,4 +487,20 @@ func (d *Driver) writeInventory(results []oblResult) {
 	}
 	b, _ := json.MarshalIndent(inv, "", " ")
 	os.WriteFile(path, b, 0o644)
+	// solver hints: for obligations whose queries needed a second solver
+	hints := map[string]string{}
+	if hb, err := os.ReadFile(filepath.Join(d.Verif, "solver_hints.json")); err == nil {
+		json.Unmarshal(hb, &hints)
+	}
+	for _, q := range d.queries {
+		if q.IsCover || q.Result != "unsat" {
+			continue
+		}
+		sv := strings.Fields(q.Solver)[0]
+		if sv != "z3-new" && q.Millis > 1500 {
+			hints[stripTarget(q.Obligation)] = sv
+		}
+	}
+	hb, _ := json.MarshalIndent(hints, "", " ")
+	os.WriteFile(filepath.Join(d.Verif, "solver_hints.json"), hb, 0o644)
 }
